@@ -58,18 +58,33 @@ def accOf (slot : Slot) (hsIn : Option (Pipe × Bool)) : Option Pipe :=
   | some (.validating _ (.opn p) _) => some p
   | _ => none
 
+/-- The `pending_outbound` ids of the peer — equally the requests the transport still has to answer — as the
+slot determines them. `live`: the id kept in `Closed{pending_open}` is still being opened (it is dead, and
+forgotten by `pending_outbound`, after a `SubstreamOpenFailure` in `Validating{OutboundInitiated}`). -/
+def isClosedSome : Slot → Bool
+  | some (.closed (some _)) => true
+  | _ => false
+
+def pendOf (slot : Slot) (live : Bool) : List Sid :=
+  if isClosedSome slot && !live then [] else (slotSid slot).toList
+
+/-- Is the id of a `Closed{pending_open}` the handler leaves behind still being opened? -/
+def liveAfter (slot : Slot) (ev : Ev) (live : Bool) : Bool :=
+  if isValidating slot then (match ev with | .openFailure .. => false | _ => true) else live
+
 /-- What the guards of the transition system and the invariant guarantee about the state a handler is
 called in. -/
-def Pre (slot : Slot) : Ev → Bool
+def Pre (slot : Slot) (live : Bool) : Ev → Bool
   | .connEst _ => !slotConn slot
   | .connClosed => slotConn slot
-  | .outbound sid _ ok => slotSid slot == some sid && ok
+  | .outbound sid _ ok => pendOf slot live == [sid] && ok
   | .inbound _ => slotConn slot
-  | .openFailure sid f => slotSid slot == some sid && f && !isValidating slot
+  | .openFailure sid f => pendOf slot live == [sid] && f
   | .hsNegotiated .outbound _ _ _ _ => outNeg slot
   | .hsNegotiated .inbound _ _ _ _ => (inbEntry slot).isSome
   | .hsError => isValidating slot
   | .notice => idle slot
+  | .cmdOpen _ _ ph _ => ph == (isClosedSome slot && live)
   | _ => true
 
 -- ------------------------------------------------------------------ the effect of an output list on one component
@@ -246,59 +261,66 @@ def connAfter (b : Bool) : Ev → Bool
   | _ => b
 
 set_option maxHeartbeats 4000000 in
-theorem conn_pure (slot : Slot) (ev : Ev) (h : Pre slot ev = true) :
+theorem conn_pure (slot : Slot) (ev : Ev) (live : Bool) (h : Pre slot live ev = true) :
     slotConn (handle slot ev).1 = connAfter (slotConn slot) ev := by
   revert h
-  handler_cases
-  all_goals simp_all [Pre, slotConn, connAfter, slotSid, outNeg, inbEntry, isValidating, idle]
+  cases live
+  all_goals handler_cases
+  all_goals simp_all [Pre, pendOf, isClosedSome, slotConn, connAfter, slotSid, outNeg, inbEntry, isValidating, idle]
 
 set_option maxHeartbeats 4000000 in
-theorem bug_pure (slot : Slot) (ev : Ev) (h : Pre slot ev = true) : Out.bug ∉ (handle slot ev).2 := by
+theorem bug_pure (slot : Slot) (ev : Ev) (live : Bool) (h : Pre slot live ev = true) : Out.bug ∉ (handle slot ev).2 := by
   revert h
-  handler_cases
-  all_goals simp_all [Pre, slotConn, slotSid, outNeg, inbEntry, isValidating, idle]
+  cases live
+  all_goals handler_cases
+  all_goals simp_all [Pre, pendOf, isClosedSome, slotConn, slotSid, outNeg, inbEntry, isValidating, idle]
 
 /-- The requested ids before the handler runs (the transport's answer removes the id it answers). -/
-def reqBefore (slot : Slot) : Ev → List Sid
+def reqBefore (slot : Slot) (live : Bool) : Ev → List Sid
   | .outbound .. | .openFailure .. | .connClosed => []
-  | _ => (slotSid slot).toList
+  | _ => pendOf slot live
 
 set_option maxHeartbeats 4000000 in
-theorem req_pure (slot : Slot) (ev : Ev) (h : Pre slot ev = true) :
-    (handle slot ev).2.foldl reqF (reqBefore slot ev) = (slotSid (handle slot ev).1).toList := by
+theorem req_pure (slot : Slot) (ev : Ev) (live : Bool) (h : Pre slot live ev = true) :
+    (handle slot ev).2.foldl reqF (reqBefore slot live ev) = pendOf (handle slot ev).1 (liveAfter slot ev live) := by
   revert h
-  handler_cases
-  all_goals simp_all [Pre, slotConn, slotSid, outNeg, inbEntry, isValidating, idle, reqF, reqBefore]
+  cases live
+  all_goals handler_cases
+  all_goals simp_all [Pre, slotConn, slotSid, outNeg, inbEntry, isValidating, idle, reqF, reqBefore, pendOf, isClosedSome, liveAfter]
 
 set_option maxHeartbeats 4000000 in
-theorem pend_pure (slot : Slot) (ev : Ev) (h : Pre slot ev = true) :
-    (handle slot ev).2.foldl pendF (slotSid slot).toList = (slotSid (handle slot ev).1).toList := by
+theorem pend_pure (slot : Slot) (ev : Ev) (live : Bool) (h : Pre slot live ev = true) :
+    (handle slot ev).2.foldl pendF (pendOf slot live) = pendOf (handle slot ev).1 (liveAfter slot ev live) := by
   revert h
-  handler_cases
-  all_goals simp_all [Pre, slotConn, slotSid, outNeg, inbEntry, isValidating, idle, pendF]
+  cases live
+  all_goals handler_cases
+  all_goals simp_all [Pre, slotConn, slotSid, outNeg, inbEntry, isValidating, idle, pendF, pendOf, isClosedSome, liveAfter]
 
 set_option maxHeartbeats 4000000 in
-theorem hsOut_pure (slot : Slot) (ev : Ev) (h : Pre slot ev = true) (v : Option Pipe)
+theorem hsOut_pure (slot : Slot) (ev : Ev) (live : Bool) (h : Pre slot live ev = true) (v : Option Pipe)
     (hv : v.isSome = outNeg slot) : ((handle slot ev).2.foldl hsOutF v).isSome = outNeg (handle slot ev).1 := by
   revert h hv
-  handler_cases
-  all_goals simp_all [Pre, slotConn, slotSid, outNeg, inbEntry, isValidating, idle, hsOutF]
+  cases live
+  all_goals handler_cases
+  all_goals simp_all [Pre, pendOf, isClosedSome, slotConn, slotSid, outNeg, inbEntry, isValidating, idle, hsOutF]
 
 set_option maxHeartbeats 4000000 in
-theorem hsIn_pure (slot : Slot) (ev : Ev) (h : Pre slot ev = true) (v : Option (Pipe × Bool))
+theorem hsIn_pure (slot : Slot) (ev : Ev) (live : Bool) (h : Pre slot live ev = true) (v : Option (Pipe × Bool))
     (hv : v.map (·.2) = inbEntry slot) :
     ((handle slot ev).2.foldl hsInF v).map (·.2) = inbEntry (handle slot ev).1 := by
   revert h hv
-  handler_cases
-  all_goals simp_all [Pre, slotConn, slotSid, outNeg, inbEntry, isValidating, idle, hsInF]
+  cases live
+  all_goals handler_cases
+  all_goals simp_all [Pre, pendOf, isClosedSome, slotConn, slotSid, outNeg, inbEntry, isValidating, idle, hsInF]
 
 set_option maxHeartbeats 4000000 in
-theorem val_pure (slot : Slot) (ev : Ev) (h : Pre slot ev = true) (v : List Pipe)
+theorem val_pure (slot : Slot) (ev : Ev) (live : Bool) (h : Pre slot live ev = true) (v : List Pipe)
     (hv : ∀ q, slotVal slot = some q → q ∈ v) :
     ∀ q, slotVal (handle slot ev).1 = some q → q ∈ (handle slot ev).2.foldl valF v := by
   revert h hv
-  handler_cases
-  all_goals simp_all [Pre, slotConn, slotSid, outNeg, inbEntry, isValidating, idle, valF, slotVal]
+  cases live
+  all_goals handler_cases
+  all_goals simp_all [Pre, pendOf, isClosedSome, slotConn, slotSid, outNeg, inbEntry, isValidating, idle, valF, slotVal]
 
 /-- After a validation answer the slot is not waiting for one. -/
 theorem val_answer (slot : Slot) (a : Bool) (r : Option Sid) : slotVal (handle slot (.validation a r)).1 = none := by
@@ -308,19 +330,21 @@ theorem val_answer (slot : Slot) (a : Bool) (r : Option Sid) : slotVal (handle s
   all_goals simp_all [slotVal]
 
 set_option maxHeartbeats 4000000 in
-theorem wf_pure (slot : Slot) (ev : Ev) (h : Pre slot ev = true) (hw : slotWf slot = true) :
+theorem wf_pure (slot : Slot) (ev : Ev) (live : Bool) (h : Pre slot live ev = true) (hw : slotWf slot = true) :
     slotWf (handle slot ev).1 = true := by
   revert h hw
-  handler_cases
-  all_goals simp_all [Pre, slotConn, slotSid, outNeg, inbEntry, isValidating, idle, slotWf]
+  cases live
+  all_goals handler_cases
+  all_goals simp_all [Pre, pendOf, isClosedSome, slotConn, slotSid, outNeg, inbEntry, isValidating, idle, slotWf]
 
 set_option maxHeartbeats 4000000 in
 /-- A handler that fires (or drops) a shutdown oneshot leaves the peer without a negotiation. -/
-theorem idle_pure (slot : Slot) (ev : Ev) (h : Pre slot ev = true) (t : Tid)
+theorem idle_pure (slot : Slot) (ev : Ev) (live : Bool) (h : Pre slot live ev = true) (t : Tid)
     (ht : Out.shutdown t ∈ (handle slot ev).2) : idle (handle slot ev).1 = true := by
   revert h ht
-  handler_cases
-  all_goals simp_all [Pre, slotConn, slotSid, outNeg, inbEntry, isValidating, idle]
+  cases live
+  all_goals handler_cases
+  all_goals simp_all [Pre, pendOf, isClosedSome, slotConn, slotSid, outNeg, inbEntry, isValidating, idle]
 
 theorem idle_notice (slot : Slot) (h : idle slot = true) : idle (handle slot .notice).1 = true := by
   rcases slot with _ | st
@@ -330,13 +354,14 @@ theorem idle_notice (slot : Slot) (h : idle slot = true) : idle (handle slot .no
 set_option maxHeartbeats 4000000 in
 /-- Every handler keeps the request/answer ledger: it answers exactly when it owes an answer and stops
 owing it, or when it takes a request up and answers it at once. -/
-theorem ledger_pure (slot : Slot) (ev : Ev) (h : Pre slot ev = true) (ts : List Task) :
+theorem ledger_pure (slot : Slot) (ev : Ev) (live : Bool) (h : Pre slot live ev = true) (ts : List Task) :
     (newEvs ts (handle slot ev).2).foldl lstep
       (if takesUp slot (handle slot ev) = true then lstep (some (owes slot)) .request else some (owes slot))
     = some (owes (handle slot ev).1) := by
   revert h
-  handler_cases
-  all_goals simp_all [Pre, slotConn, slotSid, outNeg, inbEntry, isValidating, idle, newEvs, tlF, lstep, takesUp,
+  cases live
+  all_goals handler_cases
+  all_goals simp_all [Pre, pendOf, isClosedSome, slotConn, slotSid, outNeg, inbEntry, isValidating, idle, newEvs, tlF, lstep, takesUp,
     owes, owed]
 
 /-- The pipe a handshake-negotiated event for the inbound substream carries. -/
@@ -346,15 +371,16 @@ def evPipe : Ev → Option Pipe
 
 set_option maxHeartbeats 4000000 in
 /-- Every handler keeps the acceptance ledger. -/
-theorem acc_pure (slot : Slot) (ev : Ev) (h : Pre slot ev = true) (hw : slotWf slot = true) (ts : List Task)
+theorem acc_pure (slot : Slot) (ev : Ev) (live : Bool) (h : Pre slot live ev = true) (hw : slotWf slot = true) (ts : List Task)
     (hts : isValidating slot = true → ts = []) (v : Option (Pipe × Bool)) (hv : v.map (·.2) = inbEntry slot)
     (hp : ∀ p, evPipe ev = some p → v.map (·.1) = some p) :
     (newEvs ts (handle slot ev).2).foldl astep (some (accOf slot v))
       = some (accOf (handle slot ev).1 ((handle slot ev).2.foldl hsInF v)) := by
   revert h hw hts hv hp
-  handler_cases
-  all_goals simp_all [Pre, slotConn, slotSid, outNeg, inbEntry, isValidating, idle, newEvs, tlF, astep, accOf,
-    slotWf, isOpn, hsInF, evPipe]
+  cases live
+  all_goals handler_cases
+  all_goals simp_all [Pre, pendOf, isClosedSome, slotConn, slotSid, outNeg, inbEntry, isValidating, idle, newEvs, tlF, astep, accOf,
+    slotWf, hsInF, evPipe]
 
 set_option maxHeartbeats 4000000 in
 /-- The marker `accepted q` is produced only by the handler of an Accept answer, for the inbound substream
